@@ -229,7 +229,7 @@ B("C14", "length-guard-deleted", (RUN, """        if len(samples_per_circuit) !=
                 f"{len(samples_per_circuit)}."
             )
 """, ""), rule="C14-D1")
-B("C14", "positivity-only-for-int", (RUN, "        if any(n <= 0 for n in samples_per_circuit):", "        if isinstance(n_samples, int) and n_samples <= 0:"), rule="C14-D1")
+B("C14", "positivity-only-for-int", (RUN, '        if (isinstance(n_samples, int) and n_samples <= 0) or any(\n            n <= 0 for n in samples_per_circuit\n        ):', "        if isinstance(n_samples, int) and n_samples <= 0:"), rule="C14-D1")
 B("C14", "bump-before-hook", (RUN, """        result = self._run_and_measure(circuit, n_samples)
         self._n_circuits_executed += 1
         self._n_jobs_executed += 1
@@ -268,7 +268,7 @@ B("C14", "tracker-distribution-default-shots", (TRK, """        distribution = s
 B("C14", "batch-hook-misaligned", (RUN, "            for circuit, n in zip(batch, samples_per_circuit)", "            for circuit, n in zip(batch, sorted(samples_per_circuit))"), rule="C14-D4")
 B("C14", "counter-written-by-estimation", ("estimation/_estimation.py", "        measurements_list = runner.run_batch_and_measure(circuits, shots_per_circuit)", "        measurements_list = runner.run_batch_and_measure(circuits, shots_per_circuit)\n        runner._n_jobs_executed = 0"), rule="C14-D3")
 T("C14", "twin-guard-less-than-one", (RUN, "        if n_samples <= 0:\n            raise ValueError(f\"Number of samples has to be positive, got {n_samples}\")\n        result = self._run_and_measure(circuit, n_samples)\n        self._n_circuits_executed += 1", "        if n_samples < 1:\n            raise ValueError(f\"Number of samples has to be positive, got {n_samples}\")\n        result = self._run_and_measure(circuit, n_samples)\n        self._n_circuits_executed += 1"))
-T("C14", "twin-guard-not-positive", (RUN, "        if any(n <= 0 for n in samples_per_circuit):", "        if not all(n > 0 for n in samples_per_circuit):"))
+T("C14", "twin-guard-not-positive", (RUN, '        if (isinstance(n_samples, int) and n_samples <= 0) or any(\n            n <= 0 for n in samples_per_circuit\n        ):', "        if (isinstance(n_samples, int) and n_samples <= 0) or not all(n > 0 for n in samples_per_circuit):"))
 
 # ----------------------------------------------------------------------------- C08
 GENS = "circuits/_generators.py"
@@ -1189,3 +1189,5 @@ T("C12", "saved-with-deepcopy", ("wavefunction.py", "old_val = copy(self._amplit
 T("C06", "expr-arm-xreplace", ("circuits/_operations.py", "return parameter.subs(symbols_map, simultaneous=True)", "return parameter.xreplace(symbols_map)"))
 T("C13", "integer-ceil-other-form", ("circuits/_itertools.py", "multiplicities = -(-n_samples // max_sample_size)", "multiplicities = (n_samples + max_sample_size - 1) // max_sample_size"))
 T("C18", "predicate-guard-as-if", ("decompositions/_orquestra_decompositions.py", "        return isinstance(operation, GateOperation) and (", "        if not isinstance(operation, GateOperation):\n            return False\n        return ("))
+B("C14", "empty-batch-lets-nonpositive-count-through", (RUN, '        if (isinstance(n_samples, int) and n_samples <= 0) or any(\n            n <= 0 for n in samples_per_circuit\n        ):', "        if any(n <= 0 for n in samples_per_circuit):"), rule="C14-D1")
+T("C14", "scalar-guard-as-own-statement", (RUN, '        if (isinstance(n_samples, int) and n_samples <= 0) or any(\n            n <= 0 for n in samples_per_circuit\n        ):', "        if isinstance(n_samples, int) and n_samples <= 0:\n            raise ValueError(f\"Number of samples has to be positive, got {n_samples}\")\n        if any(n <= 0 for n in samples_per_circuit):"))
